@@ -120,6 +120,102 @@ def run_rt(sc):
     return t
 
 
+def run_many(sc):
+    """One small assembly repeated K times (scaffold names suffixed ~k) so that the texts run to more than 100 000 lines, written and read back
+    in one go by the real code.  The texts and the parsed-back assembly are then cut into the K periods by scaffold name; period 1 and every
+    period whose lines or rows differ from period 1's (suffix apart) become round-trip traces of the ordinary kind - TLC judges those."""
+    a, K, tid0 = sc["asm"], sc["K"], sc["tid"]
+
+    def sfx(name, k):
+        return f"{name}~{k}"
+    bigasm = {"header": list(a["header"]), "scaffolds": [{"name": sfx(s["name"], k), "rows": s["rows"]} for k in range(1, K + 1) for s in a["scaffolds"]]}
+    real = mk_asm(bigasm)
+    res = {}
+    for which in ("agp", "tpf"):
+        def go(_):
+            text = fmt(real, which)
+            back = parse(text, which)
+            return text, proj_asm(back), fmt(back, which)
+        res[which] = C.guarded(go, None, 300.0)
+    # AGP -> TPF -> AGP through the library calls the asm-format CLI makes
+    conv = C.guarded(lambda _: proj_asm(parse(fmt(parse(fmt(parse(fmt(real, "agp"), "agp"), "tpf"), "tpf"), "agp"), "agp")), None, 300.0)
+    cscs = {}
+
+    def period_of(name):
+        return int(name.rsplit("~", 1)[1]) if "~" in name and name.rsplit("~", 1)[1].isdigit() else 0
+
+    def split_lines(m, which):
+        per = {}
+        cur = 0
+        for f in m:
+            if f and f[0].startswith("#"):
+                per.setdefault(-1, []).append(f)
+                continue
+            if which == "agp":
+                cur = period_of(f[0])
+            elif f[0] != "GAP" and len(f) > 2:
+                cur = period_of(f[2])
+            per.setdefault(cur, []).append(f)
+        return per
+
+    def unsfx(k, obj):
+        return json.loads(json.dumps(obj).replace(f"~{k}\"", "~1\"").replace(f"~{k}\\t", "~1\\t"))
+    import json
+    small = lambda k: {"header": list(a["header"]), "scaffolds": [{"name": sfx(s0["name"], k), "rows": s0["rows"]} for s0 in a["scaffolds"]]}
+    parts = {}
+    for which in ("agp", "tpf"):
+        r = res[which]
+        if r[0] != "ok":
+            parts[which] = None
+            continue
+        text, back, again = r[1]
+        lines, relines = split_lines(matrix(text), which), split_lines(matrix(again), which)
+        scs = {}
+        for s0 in back["scaffolds"]:
+            scs.setdefault(period_of(s0["name"]), []).append(s0)
+        parts[which] = (lines, scs, relines, back["header"])
+    if conv[0] == "ok":
+        for s0 in conv[1]["scaffolds"]:
+            cscs.setdefault(period_of(s0["name"]), []).append(s0)
+    out = []
+    periods = [1]
+    for k in range(2, K + 1):
+        dev = False
+        for which in ("agp", "tpf"):
+            if parts[which] is None:
+                continue
+            lines, scs, relines, _ = parts[which]
+            if unsfx(k, [lines.get(k, []), scs.get(k, []), relines.get(k, [])]) != [lines.get(1, []), scs.get(1, []), relines.get(1, [])]:
+                dev = True
+        if conv[0] == "ok" and unsfx(k, cscs.get(k, [])) != cscs.get(1, []):
+            dev = True
+        if dev and len(periods) < 6:
+            periods.append(k)
+    stray = 0
+    for which in ("agp", "tpf"):
+        if parts[which] is not None:
+            stray += len(parts[which][0].get(0, [])) + len(parts[which][1].get(0, []))
+    for n, k in enumerate(periods):
+        t = {"tid": tid0 + n, "kind": "rt", "big": 0, "asm": small(k), "agp": [], "agp_parsed": {}, "agp_exc": "", "agp_reformat": [],
+             "tpf": [], "tpf_parsed": {}, "tpf_exc": "", "tpf_reformat": [], "cli_a2t2a": {}, "cli_exc": "", "cls": f"period-{k}-of-{K}", "periods": K,
+             "stray": stray}
+        for which in ("agp", "tpf"):
+            if parts[which] is None:
+                t[which + "_exc"] = res[which][1] if res[which][0] == "exc" else "HANG"
+                continue
+            lines, scs, relines, hdr = parts[which]
+            strayl = lines.get(0, []) if n == 0 else []          # lines / scaffolds that belong to no period are shown to TLC with period 1
+            t[which] = lines.get(-1, []) + lines.get(k, []) + strayl
+            t[which + "_parsed"] = {"header": hdr, "scaffolds": scs.get(k, []) + (scs.get(0, []) if n == 0 else [])}
+            t[which + "_reformat"] = relines.get(-1, []) + relines.get(k, []) + (relines.get(0, []) if n == 0 else [])
+        if conv[0] == "ok":
+            t["cli_a2t2a"] = {"header": conv[1]["header"], "scaffolds": cscs.get(k, []) + (cscs.get(0, []) if n == 0 else [])}
+        else:
+            t["cli_exc"] = conv[1] if conv[0] == "exc" else "HANG"
+        out.append(t)
+    return out
+
+
 CORRUPTIONS = [
     ("agp", "drop-last-column", lambda f: f[:-1] if len(f) == 9 else f[:8]),
     ("agp", "drop-column-2", lambda f: f[:1] + f[2:]),
